@@ -24,7 +24,7 @@ W = {
 def profile(r, tier, index):
     return {
         "mailboxes": ["inbox", "work", "a/b"][: r.randint(2, 3)], "sessions": r.randint(1, 2), "weights": W, "init_hi": 6, "sparse": r.random() < 0.5,
-        "ops_lo": 10, "ops_hi": 45 if tier == "thorough" else 30, "mode": "sequential", "probe_p": r.choice((1.0, 1.0, 0.35, 0.1)), "pack_knob": True, "pack_p": 0.6, "bad_set_p": 0.02,
+        "ops_lo": 10, "ops_hi": 45 if tier == "thorough" else 30, "mode": "sequential", "probe_p": r.choice((1.0, 1.0, 0.35, 0.1)), "pack_knob": True, "pack_p": 0.6, "bad_set_p": 0.02, "folder_scan_p": 0.3,
         "name_alphabet": ["a", "b", "work", "new", "x.y", "a b", "Drafts", "Junk"],
     }
 
